@@ -144,7 +144,7 @@ func vOSCreate(name string) (*os.File, error) {
 
 // vSnapYield: when set (cooperative harnesses), every file-system call of the snapshot store is a scheduling point,
 // so two goroutines working in the store interleave call by call.
-var vSnapYield bool
+var vSnapYield, vSnapYieldAtRename bool
 
 func vSYield() {
 	if vSnapYield {
@@ -161,6 +161,7 @@ func vOSOpenFile(name string, flag int, perm os.FileMode) (*os.File, error) {
 }
 
 func vOSOpen(name string) (*os.File, error) {
+	vSYield()
 	g := vSLookup(name)
 	if g == nil {
 		return nil, vIOError{"no such file"}
@@ -192,6 +193,7 @@ func vOSStat(name string) (os.FileInfo, error) {
 }
 
 func vOSRemove(name string) error {
+	vSYield()
 	g := vSLookup(name)
 	if g == nil {
 		return vIOError{"no such file"}
@@ -219,6 +221,9 @@ func vSRename(oldpath, newpath string) error {
 
 // vRenameAny serves both value files and snapshot files.
 func vRenameAny(oldpath, newpath string) error {
+	if vSnapYieldAtRename {
+		vSnapYield = true // from the publishing rename on, every call is a scheduling point
+	}
 	vSYield()
 	if _, ok := vNameExt[oldpath]; ok {
 		return vRename(oldpath, newpath)
